@@ -462,7 +462,7 @@ func (x *Exec) applyContract(st *State, ins ssa.Instruction, t callTarget, c *ss
 	sc := x.specCtx(st, st.heap, pre, env)
 	n := 0
 	for _, r := range k.Requires {
-		for _, cj := range r.E.conjuncts() {
+		for _, cj := range x.eng.cs.goals(r.E) {
 			n++
 			g := sc.evalBool(cj)
 			if !x.eng.isQuiet(st) {
@@ -498,7 +498,7 @@ func (x *Exec) applyContract(st *State, ins ssa.Instruction, t callTarget, c *ss
 	}
 	sc2 := x.specCtx(st, st.heap, pre, env)
 	for _, en := range k.Ensures {
-		st.assume(sc2.evalBool(en.E))
+		st.assume(sc2.evalHyp(en.E))
 	}
 	if sig.Results().Len() == 1 {
 		return res.Fs[0]
@@ -649,7 +649,7 @@ func (x *Exec) closurePre(st *State, ins *ssa.MakeClosure, f *ssa.Function, bind
 	sc.lenient = true
 	n := 0
 	for _, r := range k.Requires {
-		for _, cj := range r.E.conjuncts() {
+		for _, cj := range x.eng.cs.goals(r.E) {
 			n++
 			if !sc.onlyUses(cj, env) {
 				continue // mentions call-time parameters: checked at the call site instead
